@@ -83,3 +83,60 @@ package main
 //@   loop 0:
 //@     invariant 0 <= $i && $i <= len(rb.backends) && rb.backends == old(rb.backends) && closedB == old(closedB)
 //@     invariant forall j int :: 0 <= j && j < $i ==> backendAddr(rb.backends[j]) != address
+
+// ---- DialogBasedBackend (C15): ghost clock `now` = last value returned by time.Now() ----
+
+//@ func NewDialogBasedBackend
+//@   props C15
+//@   ensures result != nil && result.timeout == timeoutSeconds * 1000000000
+//@   ensures result.nextCleanTime >= old(now) + result.timeout && result.nextCleanTime <= now + result.timeout
+//@   ensures forall k string :: !has(result.backends, k)
+
+//@ func (*DialogBasedBackend).GetBackend
+//@   props C15 C04
+//@   modifies mapof(dbb.backends), now
+//@   ensures clock: now >= old(now)
+//@   ensures hit: old(has(dbb.backends, dialog)) && old(dbb.backends[dialog]).expire > now ==> err == nil && result == old(dbb.backends[dialog]).backend && has(dbb.backends, dialog) && dbb.backends[dialog] == old(dbb.backends[dialog])
+//@   ensures miss: !(old(has(dbb.backends, dialog)) && old(dbb.backends[dialog]).expire > now) ==> err != nil && !has(dbb.backends, dialog)
+//@   ensures mapframe: forall k string :: k != dialog ==> has(dbb.backends, k) == old(has(dbb.backends, k)) && dbb.backends[k] == old(dbb.backends[k])
+
+//@ func (*DialogBasedBackend).RemoveDialog
+//@   props C15 C04
+//@   modifies mapof(dbb.backends)
+//@   ensures !has(dbb.backends, dialog)
+//@   ensures mapframe: forall k string :: k != dialog ==> has(dbb.backends, k) == old(has(dbb.backends, k)) && dbb.backends[k] == old(dbb.backends[k])
+
+//@ func (*DialogBasedBackend).cleanExpiredDialog
+//@   props C15
+//@   modifies mapof(dbb.backends), now
+//@   ensures clock: now >= old(now)
+//@   ensures only-deletes: forall k string :: has(dbb.backends, k) ==> old(has(dbb.backends, k)) && dbb.backends[k] == old(dbb.backends[k])
+//@   ensures unexpired-kept: forall k string :: old(has(dbb.backends, k)) && old(dbb.backends[k]).expire >= now ==> has(dbb.backends, k)
+//@   ensures expired-removed: forall k string :: old(has(dbb.backends, k)) && old(dbb.backends[k]).expire < old(now) ==> !has(dbb.backends, k)
+//@   loop 0:
+//@     invariant now >= old(now)
+//@     invariant forall k string :: has(expiredDialogs, k) ==> old(has(dbb.backends, k)) && old(dbb.backends[k]).expire < now
+//@     invariant forall k string :: $visited[k] && old(dbb.backends[k]).expire < old(now) ==> has(expiredDialogs, k)
+//@   loop 1:
+//@     invariant now >= old(now)
+//@     invariant forall k string :: has(dbb.backends, k) ==> old(has(dbb.backends, k)) && dbb.backends[k] == old(dbb.backends[k])
+//@     invariant forall k string :: old(has(dbb.backends, k)) && !has(expiredDialogs, k) ==> has(dbb.backends, k)
+//@     invariant forall k string :: $visited[k] ==> !has(dbb.backends, k)
+//@     invariant forall k string :: has(expiredDialogs, k) ==> old(has(dbb.backends, k)) && old(dbb.backends[k]).expire < now
+//@     invariant forall k string :: old(has(dbb.backends, k)) && old(dbb.backends[k]).expire < old(now) ==> has(expiredDialogs, k)
+
+//@ func (*DialogBasedBackend).AddBackend
+//@   props C15 C04
+//@   requires dbb.timeout >= 0
+//@   requires 0 <= expireSeconds && expireSeconds <= 2147483647
+//@   modifies mapof(dbb.backends), dbb.nextCleanTime, now
+//@   ensures clock: now >= old(now)
+//@   ensures pinned: has(dbb.backends, dialog) ==> dbb.backends[dialog].backend == backend
+//@   ensures lifetime-timeout: has(dbb.backends, dialog) ==> dbb.backends[dialog].expire >= old(now) + dbb.timeout
+//@   ensures lifetime-expires: has(dbb.backends, dialog) ==> dbb.backends[dialog].expire >= old(now) + expireSeconds * 1000000000
+//@   ensures lifetime-exact: has(dbb.backends, dialog) ==> dbb.backends[dialog].expire <= now + dbb.timeout || dbb.backends[dialog].expire <= now + expireSeconds * 1000000000
+//@   ensures lost-only-if-elapsed: !has(dbb.backends, dialog) ==> now > old(now) + dbb.timeout && now > old(now) + expireSeconds * 1000000000
+//@   ensures no-new-keys: forall k string :: k != dialog && has(dbb.backends, k) ==> old(has(dbb.backends, k)) && dbb.backends[k] == old(dbb.backends[k])
+//@   ensures unexpired-kept: forall k string :: k != dialog && old(has(dbb.backends, k)) && old(dbb.backends[k]).expire >= now ==> has(dbb.backends, k)
+//@   ensures sweep-when-due: old(dbb.nextCleanTime) < old(now) ==> (forall k string :: k != dialog && has(dbb.backends, k) ==> dbb.backends[k].expire >= old(now))
+//@   ensures sweep-period: dbb.nextCleanTime <= old(dbb.nextCleanTime) || dbb.nextCleanTime <= now + dbb.timeout
